@@ -1,7 +1,9 @@
-// Package exprgen translates the straight-line arithmetic functions of sdf/matrix.go
-// (determinants, cofactor inverses, products, constructors) from the Go AST of the CURRENT
+// Package exprgen translates the straight-line arithmetic functions on the matrix types of package sdf
+// (determinants, cofactor inverses, products, constructors; in sdf/matrix.go today, but the whole
+// package directory is read: a declaration may live in any file) from the Go AST of the CURRENT
 // source into Gallina over the Ops record (coq/Generated/MatrixExpr.v).
-// Supported: functions whose body is a sequence of single assignments followed by one return;
+// Supported: functions whose body is a sequence of single assignments (`x := e`, `x = e`, `var x T = e`,
+// `var x = e`) and local constant declarations followed by one return;
 // expressions over + - * /, unary minus, a[i], v.X/.Y/.Z, literals, composite literals of
 // M22/M33/M44/v2.Vec/v3.Vec, math.Sin/Cos, method calls on matrices/vectors that are themselves
 // translated (or Normalize).  Anything else is an error (= broken tie), never skipped.
@@ -17,6 +19,7 @@ import (
 	"strings"
 
 	"verifharness/kit"
+	"verifharness/sdfgen"
 )
 
 // the functions translated, in dependency order
@@ -132,7 +135,7 @@ func (t *tr) expr(e ast.Expr) (string, typ, error) {
 		if !ok {
 			return "", "", fmt.Errorf("unknown identifier %s", x.Name)
 		}
-		return x.Name, ty, nil
+		return sdfgen.CoqIdent(x.Name), ty, nil
 	case *ast.ParenExpr:
 		s, ty, err := t.expr(x.X)
 		return "(" + s + ")", ty, err
@@ -261,32 +264,50 @@ func (t *tr) expr(e ast.Expr) (string, typ, error) {
 // Gen is the kit.GenFn producing coq/Generated/MatrixExpr.v.
 func Gen(c *kit.Ctx) (string, []byte, error) {
 	fset := token.NewFileSet()
-	file, err := parser.ParseFile(fset, filepath.Join(c.Repo, "sdf", "matrix.go"), nil, 0)
+	dir := filepath.Join(c.Repo, "sdf")
+	names, err := sdfgen.GoFiles(dir)
 	if err != nil {
-		return "", nil, err
+		return "", nil, fmt.Errorf("exprgen: %v", err)
 	}
 	decls := map[string]*ast.FuncDecl{}
-	for _, d := range file.Decls {
-		fd, ok := d.(*ast.FuncDecl)
-		if !ok {
-			continue
+	for _, fn := range names {
+		file, err := parser.ParseFile(fset, filepath.Join(dir, fn), nil, 0)
+		if err != nil {
+			return "", nil, err
 		}
-		key := fd.Name.Name
-		if fd.Recv != nil && len(fd.Recv.List) == 1 {
-			if id, ok := fd.Recv.List[0].Type.(*ast.Ident); ok {
-				key = id.Name + "." + key
+		for _, d := range file.Decls {
+			fd, ok := d.(*ast.FuncDecl)
+			if !ok {
+				continue
 			}
+			key := fd.Name.Name
+			if fd.Recv != nil && len(fd.Recv.List) == 1 {
+				rt := fd.Recv.List[0].Type
+				if st, ok := rt.(*ast.StarExpr); ok {
+					rt = st.X
+				}
+				id, ok := rt.(*ast.Ident)
+				if !ok {
+					continue
+				}
+				key = id.Name + "." + key
+			} else if key == "init" || key == "_" {
+				continue
+			}
+			if _, dup := decls[key]; dup {
+				return "", nil, fmt.Errorf("exprgen: sdf/%s: duplicate declaration of %s", fn, key)
+			}
+			decls[key] = fd
 		}
-		decls[key] = fd
 	}
 	var b strings.Builder
-	b.WriteString("(* GENERATED by harness/exprgen from sdf/matrix.go - do not edit. *)\n")
+	b.WriteString("(* GENERATED by harness/exprgen from the matrix functions of package sdf (sdf/matrix.go) - do not edit. *)\n")
 	b.WriteString("From Coq Require Import ZArith List.\nFrom Sdfx Require Import Num.Ops Geo.Vec.\nImport ListNotations.\n\nSection MatrixExpr.\n  Context {O : Ops}.\n\n")
 	t := &tr{ret: map[string]typ{}}
 	for _, key := range targets {
 		fd := decls[key]
 		if fd == nil {
-			return "", nil, fmt.Errorf("exprgen: function %s not found in sdf/matrix.go", key)
+			return "", nil, fmt.Errorf("exprgen: function %s not found in package sdf", key)
 		}
 		t.env = map[string]typ{}
 		recv := ""
@@ -299,7 +320,7 @@ func Gen(c *kit.Ctx) (string, []byte, error) {
 			recv = string(rt)
 			n := fd.Recv.List[0].Names[0].Name
 			t.env[n] = rt
-			params = append(params, fmt.Sprintf("(%s : %s)", n, coqType(rt)))
+			params = append(params, fmt.Sprintf("(%s : %s)", sdfgen.CoqIdent(n), coqType(rt)))
 		}
 		for _, p := range fd.Type.Params.List {
 			pt, err := goType(p.Type)
@@ -308,7 +329,7 @@ func Gen(c *kit.Ctx) (string, []byte, error) {
 			}
 			for _, n := range p.Names {
 				t.env[n.Name] = pt
-				params = append(params, fmt.Sprintf("(%s : %s)", n.Name, coqType(pt)))
+				params = append(params, fmt.Sprintf("(%s : %s)", sdfgen.CoqIdent(n.Name), coqType(pt)))
 			}
 		}
 		if fd.Type.Results == nil || len(fd.Type.Results.List) != 1 {
@@ -339,7 +360,32 @@ func Gen(c *kit.Ctx) (string, []byte, error) {
 					return "", nil, fmt.Errorf("exprgen: %s: %v", key, err)
 				}
 				t.env[id.Name] = te
-				fmt.Fprintf(&body, "    let %s := %s in\n", id.Name, e)
+				fmt.Fprintf(&body, "    let %s := %s in\n", sdfgen.CoqIdent(id.Name), e)
+			case *ast.DeclStmt:
+				// var x T = e / var x = e / const k = e: a single assignment
+				gd, ok := s.Decl.(*ast.GenDecl)
+				if !ok || (gd.Tok != token.VAR && gd.Tok != token.CONST) {
+					return "", nil, fmt.Errorf("exprgen: %s: unsupported declaration", key)
+				}
+				for _, sp := range gd.Specs {
+					vs, ok := sp.(*ast.ValueSpec)
+					if !ok || len(vs.Names) != len(vs.Values) {
+						return "", nil, fmt.Errorf("exprgen: %s: declaration without a value for every name", key)
+					}
+					for i, n := range vs.Names {
+						e, te, err := t.expr(vs.Values[i])
+						if err != nil {
+							return "", nil, fmt.Errorf("exprgen: %s: %v", key, err)
+						}
+						if vs.Type != nil {
+							if dt, err := goType(vs.Type); err != nil || dt != te {
+								return "", nil, fmt.Errorf("exprgen: %s: declaration of %s: type mismatch", key, n.Name)
+							}
+						}
+						t.env[n.Name] = te
+						fmt.Fprintf(&body, "    let %s := %s in\n", sdfgen.CoqIdent(n.Name), e)
+					}
+				}
 			case *ast.ReturnStmt:
 				if len(s.Results) != 1 {
 					return "", nil, fmt.Errorf("exprgen: %s: unsupported return", key)
